@@ -195,6 +195,33 @@ def run_load(unit, tier, res):
                                   'bytes %r as %s: from BytesIO -> %s; from %s -> %s' % (
                                       data, spec['root'], show(base[1:]), src, show(o[1:])),
                                   {'kind': 'load-bytes', 'spec': spec, 'data': list(data), 'source': src, 'text': ''})
+        undecodable_text_stream(case, spec, res)
+
+
+def undecodable_text_stream(case, spec, res):
+    """a text stream whose bytes are not valid in its encoding has no str form; whatever the load function reports for
+    it must not depend on WHERE in the file the bad byte is (first read vs a later read while scanning)"""
+    outs = []
+    for where, data in (('early', b'a: \xff\n'), ('late', b'a: 1\n' + b'# filler line\n' * 3000 + b'b: \xff\n'),
+                        ('late-in-error', b'@oops\n' + b'# filler line\n' * 3000 + b'b: \xff\n')):
+        d = tmpdir()
+        p = os.path.join(d, 'undecodable.yaml')
+        with open(p, 'wb') as f:
+            f.write(data)
+        res.transitions += 1
+        res.traces += 1
+        try:
+            with open(p, 'r', encoding='utf-8') as f:
+                case.load(f)
+            outs.append((where, 'ok'))
+        except Exception as e:     # noqa
+            outs.append((where, type(e).__name__))
+    res.hist['undecodable-text-stream:' + outs[0][1]] += 1
+    if outs[0][1] != outs[1][1]:
+        res.violation('C12:undecodable-text-stream:%s/%s' % (outs[0][1], outs[1][1]),
+                      'a UTF-8 text stream over a file with the byte 0xff: %s when the byte is in the first line, %s when it comes '
+                      'after 40 kB of comments' % (outs[0][1], outs[1][1]),
+                      {'kind': 'undecodable', 'spec': spec, 'text': ''})
 
 
 def dump_variants(dump, dumpj):
@@ -418,6 +445,9 @@ def replay(payload):
     if payload['kind'] == 'locale':
         run_locale(res)
         return bool(res.violations), (res.violations[0]['what'] if res.violations else 'no difference under a non-UTF-8 locale')
+    if payload['kind'] == 'undecodable':
+        undecodable_text_stream(loadcase.Case(payload['spec']), payload['spec'], res)
+        return bool(res.violations), (res.violations[0]['what'] if res.violations else 'the same exception for both positions')
     if payload['kind'] == 'load-bytes':
         case = loadcase.Case(payload['spec'])
         data = bytes(payload['data'])
